@@ -957,6 +957,31 @@ func (it *Interp) assign(fr *frame, lhs []*LV, rhs []Expr, tmp bool, restores *[
 			}
 		}
 	}
+	// Whether the path of an element lvalue is looked up before or after the
+	// right-hand side is evaluated is not pinned down. When the path raises,
+	// the outcome is only decided if evaluating the right-hand side can
+	// neither raise nor have an effect (literals and variables).
+	for _, t := range targets {
+		if len(t.idxs) > 0 {
+			saved := it.kinds
+			it.kinds = map[string]int{}
+			_, pe := it.assocPath(it.getVar(fr, t.lv.decl, t.lv.Name), t.idxs, Nil{})
+			it.kinds = saved
+			if pe != nil {
+				for _, r := range rhs {
+					switch r := r.(type) {
+					case *Str:
+					case *Var:
+						if r.Explode {
+							unspec("element lvalue with a failing path and a non-trivial right-hand side")
+						}
+					default:
+						unspec("element lvalue with a failing path and a non-trivial right-hand side")
+					}
+				}
+			}
+		}
+	}
 	vals, e := it.exprs(fr, rhs)
 	if e != nil {
 		return e
